@@ -135,9 +135,9 @@ func (chkC07) CheckTrans(t *TransCtx) (out []Viol) {
 			return out
 		}
 	}
-	// a RESTART must not matter either (parameter-changing scenarios): the same transaction on a freshly constructed
+	// a RESTART must not matter either: the same transaction on a freshly constructed
 	// application instance whose stores hold the same contents — nothing a process keeps only in memory may decide a result
-	if w.GP.RestartCheck {
+	{
 		w2, st2 := w.Restarted(t.PreSt)
 		res := w2.Exec(st2, t.Act.Msg(w.Cast))
 		atomic.AddInt64(&c07.execs, 1)
